@@ -97,22 +97,30 @@ impl SecretKey {
     pub(crate) fn try_from_mpi(pub_params: &EcdsaPublicParams, d: Mpi) -> Result<Self> {
         match pub_params {
             EcdsaPublicParams::P256 { .. } => {
-                let secret = p256::SecretKey::from_slice(d.as_ref())?;
+                let raw = crate::types::pad_key::<32>(d.as_ref())?;
+                let secret = p256::SecretKey::from_bytes(&raw.into())?;
 
                 Ok(SecretKey::P256(secret))
             }
             EcdsaPublicParams::P384 { .. } => {
-                let secret = p384::SecretKey::from_slice(d.as_ref())?;
+                let raw = crate::types::pad_key::<48>(d.as_ref())?;
+                let secret = p384::SecretKey::from_bytes(&raw.into())?;
 
                 Ok(SecretKey::P384(secret))
             }
             EcdsaPublicParams::P521 { .. } => {
-                let secret = p521::SecretKey::from_slice(d.as_ref())?;
+                let raw = crate::types::pad_key::<66>(d.as_ref())?;
+                let arr =
+                    generic_array::GenericArray::<u8, generic_array::typenum::U66>::from_slice(
+                        &raw[..],
+                    );
+                let secret = p521::SecretKey::from_bytes(arr)?;
 
                 Ok(SecretKey::P521(secret))
             }
             EcdsaPublicParams::Secp256k1 { .. } => {
-                let secret = k256::SecretKey::from_slice(d.as_ref())?;
+                let raw = crate::types::pad_key::<32>(d.as_ref())?;
+                let secret = k256::SecretKey::from_bytes(&raw.into())?;
 
                 Ok(SecretKey::Secp256k1(secret))
             }
